@@ -9,54 +9,84 @@
                            object `Get` returns and whatever (recycled) memory `Malloc` returns, every
                            instance observes exactly what it observes when run alone;
     * no_cross_bytes       what an instance observes does not depend on anything the others do;
-    * get_pure_partial     `Get` is a function of the loaded map and changes nothing, so any number of
-                           concurrent Gets return the sequential answers (with the regenerated fact that
-                           the Go methods assign to nothing reachable from the receiver).
+    * get_pure_partial     true by construction of the model (`getS` returns the map unchanged); the tie is
+                           Tie A `Facts.impureGets = []` + the -race stress run;
+    * tth_stateless        the header codec keeps nothing between calls; its frame does not depend on the
+                           pool's memory; it is a kind of `All`.
   What the model CANNOT exhibit (named runtime behaviour, DESIGN §7): a data race inside an operation,
   sync.Pool internals, the span cache's CAS lock and its fallback under contention, a SetSpanCache
   racing with readers.  The many-goroutine stress run and the race-detector run of the `pool` family
   only VALIDATE the atomicity assumption ("one event = one whole operation"); they prove nothing.
 -/
 import Verif.Lemmas.PoolsKinds
+import Verif.Gen.Facts
 namespace Verif.C14
 open Verif Verif.Pools
 
-/-! ## recycled = fresh -/
+/-! ## recycled = fresh
 
-/-- BufferReader: after `Recycle` the object is `BufferReader{r: nil}`, whatever it was -/
-theorem recycled_is_fresh_bufferReader (o : BufferReaderObj) : o.recycle = BufferReaderObj.zero := rfl
+  `Good.Fresh` is, per pooled type, the predicate "at rest in the pool": every field has the value it has
+  in a newly constructed object, except the one field the code retains on purpose
+  (`ReaderSkipDecoder.b`, its private mcache buffer — any length, any content).
+    BufferReader      r = nil                BufferWriter       w = nil
+    SkipDecoder       r = nil ∧ rn = 0       BytesSkipDecoder   n = 0 ∧ b = nil
+    ReaderSkipDecoder r = nil ∧ n = 0        (b retained)
+  DefaultReader, DefaultWriter and the header codec are no object-pool types (`Obj = Unit`).
+  The theorems say: `Recycle`/`Release` applied to an object in ANY state establish `Fresh` (they are the
+  only transitions that put an object into the pool — `Sys.step`, case `release`), and moreover the result
+  IS the zero object (up to the retained buffer). -/
+
+example (o : ReaderSkipDecoderObj) : goodRSD.Fresh o ↔ (o.r = none ∧ o.n = 0) := Iff.rfl
+example (o : SkipDecoderObj) : goodSD.Fresh o ↔ (o.r = none ∧ o.rn = 0) := Iff.rfl
+example (o : BytesSkipDecoderObj) : goodBSD.Fresh o ↔ (o.n = 0 ∧ o.b = []) := Iff.rfl
+example (o : BufferReaderObj) : goodBR.Fresh o ↔ o.r = none := Iff.rfl
+example (o : BufferWriterObj) : goodBW.Fresh o ↔ o.w = none := Iff.rfl
+
+/-- BufferReader: after `Recycle` the object is at rest-fresh, indeed it is `BufferReader{r: nil}` -/
+theorem recycled_is_fresh_bufferReader (o : BufferReaderObj) :
+    goodBR.Fresh o.recycle ∧ o.recycle = BufferReaderObj.zero := ⟨rfl, rfl⟩
 
 /-- BufferWriter: after `Recycle` the object is `BufferWriter{w: nil}` -/
-theorem recycled_is_fresh_bufferWriter (o : BufferWriterObj) : o.recycle = BufferWriterObj.zero := rfl
+theorem recycled_is_fresh_bufferWriter (o : BufferWriterObj) :
+    goodBW.Fresh o.recycle ∧ o.recycle = BufferWriterObj.zero := ⟨rfl, rfl⟩
 
 /-- SkipDecoder: after `Release` the object is `SkipDecoder{}` -/
-theorem recycled_is_fresh_skipDecoder (o : SkipDecoderObj) : o.release = SkipDecoderObj.zero := rfl
+theorem recycled_is_fresh_skipDecoder (o : SkipDecoderObj) :
+    goodSD.Fresh o.release ∧ o.release = SkipDecoderObj.zero := ⟨⟨rfl, rfl⟩, rfl⟩
 
 /-- BytesSkipDecoder: after `Release` the object is `BytesSkipDecoder{n: 0, b: nil}` -/
 theorem recycled_is_fresh_bytesSkipDecoder (o : BytesSkipDecoderObj) :
-    o.release = BytesSkipDecoderObj.zero := rfl
+    goodBSD.Fresh o.release ∧ o.release = BytesSkipDecoderObj.zero := ⟨⟨rfl, rfl⟩, rfl⟩
 
 /-- ReaderSkipDecoder: after `Release` the object is `ReaderSkipDecoder{r: nil, n: 0, b: <old buffer>}` -/
 theorem recycled_is_fresh_readerSkipDecoder (o : ReaderSkipDecoderObj) :
-    o.release = { ReaderSkipDecoderObj.zero with b := o.b } := rfl
+    goodRSD.Fresh o.release ∧ o.release = { ReaderSkipDecoderObj.zero with b := o.b } := ⟨⟨rfl, rfl⟩, rfl⟩
 
-/-- … and that state is as good as new in the strong sense: `New…(arg)` on an object in ANY state that
-    can sit in a pool — for ReaderSkipDecoder any retained buffer of any content, for SkipDecoder any
-    stale `rn` — starts an instance that refines the same pool-free, allocator-free machine as one
-    started on a zero object (`Good.init_ref` of the five pooled kinds; `Fresh` is `True` for all of
-    them: every field an operation reads is overwritten by `New…` or at the start of the operation). -/
+/-- the same at the level of the system: whatever state an instance of any kind is in (after any
+    history, failed calls included), the object its `Release`/`Recycle` puts into the pool is `Fresh` -/
+theorem release_establishes_fresh (s : All.St) (x : goodAll.Abs) (h : goodAll.Ref s x) :
+    goodAll.Fresh (All.release s).1 := goodAll.release_fresh s x h
+
+/-- … and that state is as good as new in the strong sense, for all FIVE pooled types: `New…(arg)` on a
+    released object — in fact on an object in ANY state: for ReaderSkipDecoder any retained buffer of any
+    content, for SkipDecoder any stale `rn` — starts an instance that refines the same pool-free,
+    allocator-free machine as one started on a zero object (`Good.init_ref`): every field an operation
+    reads is overwritten by `New…` or at the start of the operation. -/
 theorem recycled_behaves_as_new (src : Src) (b : Bytes)
-    (o1 : BufferReaderObj) (o2 : SkipDecoderObj) (o3 : BytesSkipDecoderObj) (o4 : ReaderSkipDecoderObj) :
+    (o1 : BufferReaderObj) (o2 : SkipDecoderObj) (o3 : BytesSkipDecoderObj) (o4 : ReaderSkipDecoderObj)
+    (o5 : BufferWriterObj) :
     goodBR.Ref (kBR.init o1.recycle src) (goodBR.ainit src) ∧
     goodBR.Ref (kBR.init BufferReaderObj.zero src) (goodBR.ainit src) ∧
     goodSD.Ref (kSD.init o2.release src) (goodSD.ainit src) ∧
     goodSD.Ref (kSD.init o2 src) (goodSD.ainit src) ∧
     goodBSD.Ref (kBSD.init o3.release b) (goodBSD.ainit b) ∧
     goodRSD.Ref (kRSD.init o4.release src) (goodRSD.ainit src) ∧
-    goodRSD.Ref (kRSD.init ReaderSkipDecoderObj.zero src) (goodRSD.ainit src) :=
-  ⟨goodBR.init_ref _ _ trivial, goodBR.init_ref _ _ trivial, goodSD.init_ref _ _ trivial,
-   goodSD.init_ref _ _ trivial, goodBSD.init_ref _ _ trivial, goodRSD.init_ref _ _ trivial,
-   goodRSD.init_ref _ _ trivial⟩
+    goodRSD.Ref (kRSD.init ReaderSkipDecoderObj.zero src) (goodRSD.ainit src) ∧
+    goodBW.Ref (kBW.init o5.recycle ()) (goodBW.ainit ()) ∧
+    goodBW.Ref (kBW.init BufferWriterObj.zero ()) (goodBW.ainit ()) :=
+  ⟨goodBR.init_ref _ _ rfl, goodBR.init_ref _ _ rfl, goodSD.init_ref _ _ ⟨rfl, rfl⟩,
+   (rfl : goodSD.Ref (kSD.init o2 src) (goodSD.ainit src)), goodBSD.init_ref _ _ ⟨rfl, rfl⟩, goodRSD.init_ref _ _ ⟨rfl, rfl⟩,
+   goodRSD.init_ref _ _ ⟨rfl, rfl⟩, goodBW.init_ref _ _ rfl, goodBW.init_ref _ _ rfl⟩
 
 /-- **the retained buffer is never exposed**.  `ReaderSkipDecoder.Next(t)` on a recycled object: whatever
     the buffer `b` holds from the previous tenant (any bytes, any length), whatever `n` was, and whatever
@@ -84,8 +114,8 @@ theorem isolation_generic {K : Kind} (G : Good K) (evs : List (Ev K)) (i : Nat) 
   isolation_of_good G evs i
 
 /-- **isolation** for systems that mix instances of every MODELLED kind — DefaultReader, BufferReader,
-    SkipDecoder, BytesSkipDecoder, ReaderSkipDecoder, DefaultWriter, BufferWriter (`All` = the sum of
-    the seven kinds) — sharing one object pool per pooled type and ONE buffer pool: for every history,
+    SkipDecoder, BytesSkipDecoder, ReaderSkipDecoder, DefaultWriter, BufferWriter, the TTHeader codec
+    (`All` = the sum of the eight kinds) — sharing one object pool per pooled type and ONE buffer pool: for every history,
     i.e. every interleaving of whole operations of any number of instances, every pooled object `Get`
     may return and every recycled or fresh memory (any content) `Malloc` may return, each instance
     observes exactly what it observes when it runs alone.
@@ -103,9 +133,10 @@ theorem isolation_generic {K : Kind} (G : Good K) (evs : List (Ev K)) (i : Nat) 
       `skipTplAt_sim`), kDW and kBW (flushed bytes do not depend on the dirty memory of any Malloc:
       `wr_step_ref` over C05's simulation), and the generic part (`Good.sum`, `isolation_of_good`,
       the pool invariant `pool_always_fresh`).
-    * NOT in `All`: `Binary.ReadBinary` with the shared span cache and the TTHeader codec.  They exist
-      only in the driver (`bin`, `tth` lines) as stateless functions; their sharing (span cache; the
-      writer/reader instance a header call runs on) is exercised by Tie B and the stress run only. -/
+    * kTTH (header codec): stateless (`St = Unit`); content = `tthEnc_dirt` (see `tth_stateless`).
+    * NOT in `All`: `Binary.ReadBinary` with the shared span cache.  It exists only in the driver
+      (`bin` lines) as a stateless function; the shared span cache is exercised by Tie B and the stress
+      run only. -/
 theorem isolation (evs : List (Ev All)) (i : Nat) :
     ((Sys.empty : Sys All).run evs).outputs i = alone i evs :=
   isolation_of_good goodAll evs i
@@ -123,14 +154,43 @@ theorem no_cross_bytes (evs evs' : List (Ev All)) (i : Nat) (h : solo i evs = so
     ((Sys.empty : Sys All).run evs).outputs i = ((Sys.empty : Sys All).run evs').outputs i :=
   no_cross_bytes_generic goodAll evs evs' i h
 
-/-- the pool invariant behind it: at every point of every history, every object at rest in the
-    object pool is `Fresh` (only Release/Recycle put objects there), and every live instance is in a
+/-- the pool invariant behind it (generic): at every point of every history, every object at rest in
+    the object pool is `Fresh` — the real per-type predicate above — and every live instance is in a
     state of the allocator-free machine -/
 theorem pool_always_fresh {K : Kind} (G : Good K) (evs : List (Ev K)) :
     (∀ o ∈ ((Sys.empty : Sys K).run evs).objs, G.Fresh o) ∧
     (∀ j x, ((Sys.empty : Sys K).run evs).live j = some x → ∃ a, G.Ref x a) :=
   let h := (WF.empty G).run G evs
   ⟨h.objs, h.live⟩
+
+/-- … for mixed systems of all kinds -/
+theorem pool_always_fresh_all (evs : List (Ev All)) :
+    ∀ o ∈ ((Sys.empty : Sys All).run evs).objs, goodAll.Fresh o :=
+  (pool_always_fresh goodAll evs).1
+
+/-- … and spelled out for the type that retains something: in EVERY history of any number of
+    ReaderSkipDecoder instances, every object in the pool has `r = nil` and `n = 0` — only its buffer
+    `b` carries anything over (and by `readerSkip_old_buffer_never_exposed` never shows it) -/
+theorem pool_always_fresh_readerSkipDecoder (evs : List (Ev kRSD)) :
+    ∀ o ∈ ((Sys.empty : Sys kRSD).run evs).objs, o.r = none ∧ o.n = 0 :=
+  (pool_always_fresh goodRSD evs).1
+
+/-! ## the header codec -/
+
+/-- **tth_stateless**.  `ttheader.Encode` (+ the caller's total-length field + Flush) and
+    `ttheader.DecodeFromBytes` keep nothing between calls and share nothing but the buffer pool behind
+    the writer/reader they run on: (1) the encoded frame does not depend on what the pool's memory held
+    (`d`, `d'` arbitrary: every byte of every Malloc'ed region is written), it is the closed form of
+    C06's `encode_raw`; (2) hence in ANY history of `All` — header calls interleaved with operations of
+    any instances of any kind — every header call returns what it returns alone (instance of `isolation`);
+    (3) the model's Decode has no allocator argument at all.
+    Tie to the code: protocol/ttheader declares NO package-level variable other than sentinel errors
+    (regenerated fact `Facts.pkgVars_ttheader`, `tth_no_pkg_state` below) and the `tth rt` lines of Tie B. -/
+theorem tth_stateless (d d' : Dirty) (p : TTH.EncParam) (b : Bytes) (cap : Nat) :
+    tthEnc d p = tthEnc d' p ∧
+    (kTTH.step d () (.enc p)).2.1 = (kTTH.step d' () (.enc p)).2.1 ∧
+    (kTTH.step d () (.dec b cap)).2.1 = (kTTH.step d' () (.dec b cap)).2.1 :=
+  ⟨tthEnc_dirt d d' p, by simp only [kTTH]; rw [tthEnc_dirt d d' p], rfl⟩
 
 /-! ### non-vacuity: a recycled ReaderSkipDecoder that really carries the previous tenant's bytes -/
 
@@ -180,7 +240,8 @@ example : ((((Sys.empty : Sys kDW).run exampleWriters).outputs 2).map
     anything reachable from its receiver -/
 theorem impureGets_nil : Facts.impureGets = [] := by decide
 
-/-- **get_pure_partial**.  PARTIAL, and honest about where the content is: in the model `getS` returns the
+/-- **get_pure_partial**.  TRUE BY CONSTRUCTION OF THE MODEL; the tie to the code is Tie A
+    `Facts.impureGets = []` + the `-race` stress run.  In detail: in the model `getS` returns the
     map unchanged BY CONSTRUCTION and `runGets` is a sequential fold, so the two `runGets` equations below
     are true by definition (they only spell out "if Get is a function of the loaded state, any schedule
     of Gets returns the sequential answers").  The real content is (1) the regenerated Tie A fact
@@ -201,5 +262,9 @@ theorem get_pure_partial {V : Type} (h : Bytes → Nat) (m : SMap.StrMap V) (sm 
   · induction sched with
     | nil => rfl
     | cons gk rest ih => simp only [runGets, s2sGetS, List.map_cons] at ih ⊢; rw [ih]
+
+/-- the regenerated list of file-level variables of protocol/ttheader (sentinel errors excluded) is empty:
+    the package has no state a call could leave behind for another goroutine. -/
+theorem tth_no_pkg_state : Facts.pkgVars_ttheader = [] := by decide
 
 end Verif.C14
